@@ -1156,9 +1156,11 @@ class Interp(object):
                 if isinstance(idx, slice):
                     n = len(obj.items[idx])
                     vals = v.items if isinstance(v, SArr) else [v] * n
+                    if len(vals) == 1 and n != 1:
+                        vals = vals * n
                     if len(vals) != n:
-                        raise Undecided('array store of %d values into %d '
-                                        'entries' % (len(vals), n))
+                        # NumPy: could not broadcast input array
+                        raise PyRaise('ValueError')
                     obj.items[idx] = vals
                     return
                 if isinstance(idx, (list, SArr)):
@@ -1871,6 +1873,10 @@ class Interp(object):
             return Opaque('type')
         if name == 'str' or name == 'repr':
             return args[0] if args and isinstance(args[0], str) else '<str>'
+        if name == 'map':
+            f = args[0]
+            seq = args[1].items if isinstance(args[1], SArr) else args[1]
+            return [self.call(f, [v], {}) for v in seq]
         if name == 'slice':
             return slice(*args)
         if name == 'round':
@@ -2033,7 +2039,7 @@ class _Ufuncs(object):
         self.v = v
 
 
-_PY_BUILTINS = {'set', 'dict', 'sorted', 'reversed', 'slice', 'round',
+_PY_BUILTINS = {'set', 'dict', 'sorted', 'reversed', 'slice', 'round', 'map',
                 'isinstance', 'getattr', 'hasattr', 'len', 'int', 'float',
                 'complex', 'range', 'zip', 'enumerate', 'tuple', 'list',
                 'abs', 'callable', 'type', 'str', 'repr', 'all', 'any',
